@@ -207,18 +207,22 @@ def lift2(ex, st, f, a, b, kres=None):
         probe = f(a, Sym(b.at(z3.IntVal(0)), b.k))
         return Arr(b.n, lambda i: _t(f(a, Sym(b.at(i), b.k))), kind_of(probe))
     if isinstance(a, Arr2) or isinstance(b, Arr2):
+        z0 = z3.IntVal(0)
         if isinstance(a, Arr2) and isinstance(b, Arr2):
             ex.need(st)('broadcast_shape', z3.And(a.nr == b.nr, a.nc == b.nc))
+            kk = kind_of(f(Sym(a.at(z0, z0), a.k), Sym(b.at(z0, z0), b.k)))
             return Arr2(a.nr, a.nc, lambda r, c: _t(f(
-                Sym(a.at(r, c), a.k), Sym(b.at(r, c), b.k))), 'real')
+                Sym(a.at(r, c), a.k), Sym(b.at(r, c), b.k))), kk)
         if isinstance(a, Arr2):
             if is_scalar(b):
+                kk = kind_of(f(Sym(a.at(z0, z0), a.k), b))
                 return Arr2(a.nr, a.nc, lambda r, c: _t(f(
-                    Sym(a.at(r, c), a.k), b)), a.k)
+                    Sym(a.at(r, c), a.k), b)), kk)
         else:
             if is_scalar(a):
+                kk = kind_of(f(a, Sym(b.at(z0, z0), b.k)))
                 return Arr2(b.nr, b.nc, lambda r, c: _t(f(
-                    a, Sym(b.at(r, c), b.k))), b.k)
+                    a, Sym(b.at(r, c), b.k))), kk)
         raise OutsideSubset('2-D broadcasting form')
     return f(a, b)
 
@@ -753,6 +757,24 @@ def assign_subscript(ex, st, tgt, v):
 # ---------------------------------------------------------------------------
 # comprehensions
 
+def _mentions(f, k):
+    seen = set()
+    todo = [f]
+    while todo:
+        e = todo.pop()
+        i = e.get_id()
+        if i in seen:
+            continue
+        seen.add(i)
+        if e.eq(k):
+            return True
+        if z3.is_quantifier(e):
+            todo.append(e.body())
+        else:
+            todo.extend(e.children())
+    return False
+
+
 def comprehension(ex, st, node):
     if len(node.generators) != 1 or node.generators[0].ifs:
         raise OutsideSubset('comprehension form', node)
@@ -773,6 +795,7 @@ def comprehension(ex, st, node):
         st.pc.append(idx_assump)
         saved_ci = st.ghost.get('comp_index')
         st.ghost['comp_index'] = k
+        n_pc = len(st.pc)
         try:
             ex.assign(gen.target, dom.bind(k), st)
             e = ex.eval(node.elt, st)
@@ -786,6 +809,12 @@ def comprehension(ex, st, node):
         # remove the index assumption again (axioms introduced stay: they are
         # definitional and guarded by fresh symbols)
         st.pc = [f for f in st.pc if f is not idx_assump]
+        # facts that a model explicitly registered as parametric in the
+        # comprehension index (symbols applied to k) hold for every index
+        kq = z3.Int(uid('kq'))
+        for f in st.ghost.pop('comp_facts', ()):
+            st.assume(z3.ForAll([kq], z3.Implies(
+                z3.And(kq >= 0, kq < dom.n), z3.substitute(f, (k, kq)))))
         if isinstance(de, (Sym, int, float, bool)):
             kk = kind_of(de)
             t = zv(de, kk)
